@@ -188,7 +188,7 @@ def run_nondeg(c):
 # ------------------------------------------------------------------------------------------- (c) conic x conic
 @st.composite
 def cc_case(draw, tier="quick"):
-    what = draw(st.sampled_from(["secant_secant", "secant_secant", "tangent_secant", "tangent_tangent", "fourfold", "circles", "with_degenerate"]))
+    what = draw(st.sampled_from(["secant_secant", "secant_secant", "tangent_secant", "tangent_tangent", "fourfold", "fourfold_exact", "circles", "with_degenerate"]))
     idx = list(draw(st.permutations(range(6)))[:4])
     return {"what": what, "n": draw(Z.params(9)), "idx": idx, "r": [draw(st.integers(-3, 3)), draw(st.sampled_from([1, 2, 3]))], "s": [draw(C.scale()), draw(C.scale())],
             "c": [draw(C.ints(5)) for _ in range(6)], "swap": draw(st.booleans())}
@@ -223,6 +223,26 @@ def run_cc(c):
         known += [np.append(p0 + hh * dvec, 1), np.append(p0 - hh * dvec, 1)]
         MA, MB = A.array, B.array
         repeated = False
+    elif what == "fourfold_exact":
+        # small integers only, no rescaling: every determinant of the pencil is computed exactly, so the cubic resolvent
+        # has an exact triple root (the branch of roots() that needs f == g == h == 0 exactly)
+        perm = [[0, 1, 2], [1, 0, 2], [2, 1, 0]][c["idx"][0] % 3]
+        sgn = [1, 1, -1]
+        S = [[Fraction(sgn[i] if perm[i] == j else 0) for j in range(3)] for i in range(3)]
+        S = [[S[i][j] if i == j else Fraction(0) for j in range(3)] for i in range(3)]
+        y = [(3, 4, 5), (4, 3, 5), (0, 1, 1), (1, 0, 1), (-3, 4, 5), (5, 12, 13)][c["idx"][1] % 6]
+        x0 = [Fraction(t) for t in y]
+        l = [S[i][i] * x0[i] for i in range(3)]
+        r = Fraction(c["r"][1] if c["r"][0] >= 0 else -c["r"][1])
+        Bm = [[-r * S[i][j] + l[i] * l[j] for j in range(3)] for i in range(3)]
+        if X.det(Bm) == 0:
+            raise Skip("degenerate")
+        MA = np.array([[float(t) for t in row] for row in S])
+        MB = np.array([[float(t) for t in row] for row in Bm])
+        A, B = Conic(MA), Conic(MB)
+        known = [np_f(x0)]
+        repeated = True
+        what = "fourfold"
     else:
         sig = [1, 1, -1]
         S, adjN = quadric_matrix(c["n"], sig, 3)
@@ -271,7 +291,7 @@ def run_cc(c):
         repeated = what in ("tangent_secant", "tangent_tangent", "fourfold")
     if c["swap"] and what != "with_degenerate":
         A, B, MA, MB = B, A, MB, MA
-    site = f"conic-conic:{what}"
+    site = f"conic-conic:{c['what']}"
     r, f = call(site, A.intersect, B)
     if f:
         return [f]
@@ -310,7 +330,7 @@ LAWS = [
         {"quick": 2000, "thorough": 40000}, "generated line/plane pairs, all sign patterns, parallel / at infinity / zeros, collections", shard=300),
     Law("not_reducible", lambda tier: nondeg_case(tier), run_nondeg, lambda c: True, lambda c: [c["what"], f"d{c['d']}"], {"quick": 800, "thorough": 15000},
         "non-degenerate quadrics are not degenerate; rank >= 3 quadrics of 3-space raise NotReducible", shard=300),
-    Law("conic_conic", lambda tier: cc_case(tier), run_cc, lambda c: c["what"] in ("tangent_secant", "tangent_tangent", "fourfold"), lambda c: [c["what"]],
+    Law("conic_conic", lambda tier: cc_case(tier), run_cc, lambda c: c["what"] in ("tangent_secant", "tangent_tangent", "fourfold", "fourfold_exact"), lambda c: [c["what"]],
         {"quick": 1500, "thorough": 30000}, "conic.intersect(conic): <= 4 points on both conics, all exactly known common points present (incl. repeated roots)", shard=200,
-        mandatory=("fourfold", "tangent_secant", "circles")),
+        mandatory=("fourfold", "fourfold_exact", "tangent_secant", "circles")),
 ]
